@@ -11,7 +11,7 @@ from ..values import (Num, Const, Tup, Term, Obj, P, Val, Kw, arr_param, scalar_
 from ..model import AnalysisError
 from ..symeval import Evaluator, State, Frame
 from .. import api, callgraph
-from .common import S, run as runf, need_num, show, REPO_RESULT_KIND, no_sau, SAU, inline_except, SCANS
+from .common import same_extent, S, run as runf, need_num, show, REPO_RESULT_KIND, no_sau, SAU, inline_except, SCANS
 
 MATCH = 'traffic_weaver.match.'
 KERNEL = MATCH + '_integral_matching_stretch'
@@ -213,7 +213,13 @@ def check_public(ctx, lits):
             return any(isinstance(t, Term) and t.head in ('unbound', 'unsupported') for t in walk_vals(v))
         got_x = b_str.get('fixed_points_indices_in_x')
         got_r = b_sum.get('indices')
-        ctx.check(got_x is not None and not has_unbound(got_x) and veq(_arr(got_x), _arr(want_x)), 'C01.5',
+        # for strictly increasing x (the property's precondition) the indices of the samples whose value is among x[I] are the distinct indices I:
+        #   where(isin(x, unique(x.take(I))))[0] == unique(I)
+        alt_x = None
+        if mode == 'search':
+            alt_x = sev.eval(ast.parse('np.unique(find_closest_element_indices_to_values(x, x_ref, strategy=strategy))', mode='eval').body, sst)
+        same_x = got_x is not None and not has_unbound(got_x) and (veq(_arr(got_x), _arr(want_x)) or (alt_x is not None and veq(_arr(got_x), _arr(alt_x))))
+        ctx.check(same_x, 'C01.5',
                   f"mode {mode}: fixed indices handed to the stretch index x as documented",
                   f"code: {show(got_x, 400)}\nspec: {show(want_x, 400)}", loc, fi.qualname, f"xidx:{mode}")
         ctx.check(got_r is not None and not has_unbound(got_r) and veq(_arr(got_r), _arr(want_r)), 'C01.5',
@@ -342,7 +348,7 @@ def check_interval_loop(ctx):
         r = None
     else:
         r = need_num(ctx, 'C01.4', 'sum_over_indices result', r, sfi)
-    ctx.check(r is None or (r.length is not None and r.r == want and r.length == J), 'C01.4',
+    ctx.check(r is None or (r.length is not None and r.r == want and same_extent(r.length, J)), 'C01.4',
               'sum_over_indices: element j = sum of a[ind[j] : ind[j+1]] (half-open), one element per consecutive pair' + (' [not decided here]' if r is None else ''),
               f"code: {show(r, 300) if r is not None else ''}\nspec: {sym.show(want)[:300]} | len {sym.show(J)}", sfi.loc(), sfi.qualname, 'range-sums')
 
